@@ -1,7 +1,7 @@
 (* C04 - logical/shape-based components compose by conformance, not by leaked results. *)
 From Coq Require Import List NArith Bool.
 From Verif Require Import Base.SetList Base.Terms Base.Vocab Paths.Path Shapes.AST Shapes.Leaf Shapes.Eval
-  Shapes.EvalProofs.
+  Shapes.EvalProofs Shapes.AbortProofs.
 Import ListNotations.
 
 (* A node conforms to a referenced shape exactly when validating it against that shape
@@ -24,3 +24,13 @@ Theorem C04_verdict_default : forall trig o sg g E c rs,
   validate trig o sg g E = Ok (c, rs) -> (c = true <-> rs = []).
 Proof. exact validate_verdict_default. Qed.
 Print Assumptions C04_verdict_default.
+
+(* sh:not, sh:and, sh:or, sh:xone and sh:qualifiedValueShape (with sibling shapes) produce their
+   results from the members' conformance alone: two nested evaluators that agree on conformance
+   (whatever results they return) give the same component results. *)
+Theorem C04_conformance_only : forall trig n1 n2 g E s fvs ep c cr,
+  fst_agree n1 n2 ->
+  match c with CNode _ | CProperty _ => False | _ => True end ->
+  evalc trig n2 g E s fvs ep c = Ok cr -> evalc trig n1 g E s fvs ep c = Ok cr.
+Proof. exact evalc_conformance_only. Qed.
+Print Assumptions C04_conformance_only.
